@@ -102,6 +102,10 @@ fn exec_server(c: &Case, active: &crate::findings::Active) -> CaseResult {
     server.kill();
     std::thread::sleep(Duration::from_millis(c.downtime_ms));
     if let Err(e) = server.restart() {
+        if e.contains("os error") {
+            // the child could not even be spawned: nothing was learnt about the dump
+            return CaseResult::infra(format!("restart: {}", e));
+        }
         return CaseResult::fail(format!("the server does not start on its own dump: {}", e), "restart-failed");
     }
     let t_ready = t0.elapsed().as_secs_f64() * 1000.0;
